@@ -4,7 +4,7 @@ import re
 import anchors
 from core import (BA, call_matches, callee_paths, op_local, op_place, op_const, const_int, place_fields, field_writes)
 from facts import strip_generics
-from typestate import LockTS, derive_preconditions, LOCK
+from typestate import LockTS, derive_preconditions, LOCK, lockts_with_lends
 from rules import common
 from rules.C06 import backward_direct, trace_moves
 from rules.C07 import dedupe_rule
@@ -26,8 +26,9 @@ ASSUMPTIONS = ["unwind edges excluded", "the kernel wakes F_SETLKW waiters when 
 PANICKY = re.compile(r"core::panicking::.*|core::option::Option::(unwrap|expect)|core::result::Result::(unwrap|expect)|core::option::unwrap_failed|core::result::unwrap_failed")
 
 
-def lock_typestate(ctx, rid, body, role, roots=None, entry=None, single=False, exit_required=None, pre=None, exclude=(), starts=None):
-    ts = LockTS(ctx.prog, body, roots or [], entry_state=entry, preconds=pre, single_object=single, exclude=exclude, starts=starts)
+def lock_typestate(ctx, rid, body, role, roots=None, entry=None, single=False, exit_required=None, pre=None, exclude=(), starts=None, ts=None):
+    if ts is None:
+        ts = LockTS(ctx.prog, body, roots or [], entry_state=entry, preconds=pre, single_object=single, exclude=exclude, starts=starts)
     n = 0
     calls = [(bb, det, st) for (bb, kind, st, det) in ts.events if kind == "call"]
     bad = {(bb, det[0]): (st, det[1]) for (bb, kind, st, det) in ts.events if kind == "precondition"}
@@ -80,13 +81,21 @@ def run(ctx):
     asserts = {k: v for k, v in pre.items() if v}
     ctx.floor("R9.1", "Lock methods that assert on `owned`", len(asserts), 4)
     n = 0
+    lent_bodies = set()
     # scheduler: one analysis per new_lock site
     for k, i in common.ordinal_keys([("new_lock", i) for i in ba.calls(r"state::ProcessState::new_lock")]):
         t = S.blocks[i]["term"]
         if t["dest"]["p"]:
             continue
-        c, _ = lock_typestate(ctx, "R9.1", S, k, roots=[t["dest"]["l"]], pre=pre)
+        # (the lock may be lent to a coroutine awaited in place - the retry loop as an `async fn(&mut Lock)`: that body is
+        # analysed from the state the lock is in where it is built, and its completion state continues here)
+        ts_, lent = lockts_with_lends(prog, S, [t["dest"]["l"]], pre)
+        c, _ = lock_typestate(ctx, "R9.1", S, k, pre=pre, ts=ts_)
         n += c
+        for NB, nts, st0 in lent:
+            c, _ = lock_typestate(ctx, "R9.1", NB, "lent-" + k, pre=pre, ts=nts)
+            n += c
+            lent_bodies.add(NB.key)
     # closures that use a captured lock (the cheat closure: selflock lives in a captured Option<(.., Lock)>);
     # invariant: not owned at entry and at every normal exit
     lock_closures = [b for b in prog.bodies.values() if b.kind == "Closure" and not b.coroutine
@@ -130,7 +139,7 @@ def run(ctx):
             n += c
     # any other body that creates locks and calls their methods (a part of the scheduler moved into a function /
     # coroutine of its own): one analysis per new_lock site, like the scheduler
-    analysed = {S.key} | {prog.one(k).key for k, _, _ in table} | {c.key for c in lock_closures}
+    analysed = {S.key} | {prog.one(k).key for k, _, _ in table} | {c.key for c in lock_closures} | lent_bodies
     internal = {k for k in prog.bodies if k.startswith("state::Lock::") or k.startswith("<state::Lock as")}
     exit_states = {}
     for b in anchors.bodies_calling(prog, r"state::Lock::(unlock|try_lock|wait_lock|check)"):
